@@ -561,6 +561,8 @@ MboxCatalogue == {
 FlagCatalogue == {
   <<92, 83, 101, 101, 110>>, <<92, 115, 101, 101, 110>>, <<92, 83, 69, 69, 78>>,    \* \Seen \seen \SEEN
   <<83, 101, 101, 110>>,                                                           \* Seen (a keyword)
+  <<90, 122, 75, 119>>, <<122, 122, 107, 119>>, <<90, 90, 75, 87>>,                  \* ZzKw zzkw ZZKW: one keyword in three
+                                                                                   \* spellings - each is delivered as written
   <<36, 70, 111, 114, 119, 97, 114, 100, 101, 100>>, <<36, 102, 111, 114, 119, 97, 114, 100, 101, 100>>,
   <<36, 77, 68, 78, 83, 101, 110, 116>>, <<36, 109, 100, 110, 115, 101, 110, 116>>,
   <<92, 82, 101, 99, 101, 110, 116>>, <<78, 73, 76>>, <<92, 42>>, <<97, 93>>, <<92, 97, 93>>, <<97, 125>>,
